@@ -52,6 +52,9 @@ CLI_POOL = {
     "walrus": "data = [1, 2, 3]\nif (n := len(data)) > 2:\n    msg = f'{n} items'\nelse:\n    msg = 'few'\nprint(msg, n)\n",
     "decor": "def twice(fn):\n    return lambda *a: fn(*a) * 2\n@twice\ndef h(v):\n    return v + 1\nu = h(2)\nprint(u)\n",
     "bytes": "b = b'\\x00\\xffab'\nprint(b, len(b), 0x10, 1e3, 2j)\n",
+    "ellipsis_tail": "x = 1\nif x:\n    pass\nelse:\n    ...\n",
+    "mentions_paths": "names = ['out.txt', 'in.py', '-o', '-Cunparser=oneliner', 'r\u00e9sultat.txt']\nprint(names, __name__ == '__main__')\n",
+    "print_alias": "p = print\nshow = lambda *a: p('>', *a)\nshow('x', 1)\np(len('abc'))\n",
     "percent": "fmt = '%s and %d%% of {} {0} {name} %(k)s'\nout = 'a %s b' % 'x'\nbr = '{}{{}}'.format(1)\nprint(fmt, out, br, 7 % 3)\n",
     "biginput": "".join("v%03d = 'payload %03d %s'\n" % (i, i, "x" * 60) for i in range(120)) + "print(v000[:12], v119[:12])\n",
 }
@@ -370,6 +373,18 @@ def gen_base(seed: int) -> dict:
         files[in_path] = CLI_POOL["hello"].encode()
         unreadable.append(in_path)
     files["other.txt"] = b"do not touch\n"
+    if rng.random() < 0.25:
+        # decoy configuration files: nothing but the command line may select options
+        decoy = rng.choice(["pyproject.toml", ".onelinerrc", "oneliner.cfg", "setup.cfg", "home/.onelinerrc", "home/.config/oneliner.toml",
+                            "oneliner.toml", ".oneliner.json"])
+        if "/" in decoy:
+            d0 = decoy.rsplit("/", 1)[0]
+            dirs.add(d0)
+            if "/" in d0:
+                dirs.add(d0.split("/", 1)[0])
+        files[decoy] = (b'[tool.oneliner]\nunparser = "oneliner"\nexpr_wrapper = "list"\nif_style = "short_circuit"\n'
+                        b'[oneliner]\nunparser = oneliner\nexpr_wrapper = list\nif_style = short_circuit\n'
+                        if not decoy.endswith(".json") else b'{"unparser": "oneliner", "expr_wrapper": "list", "if_style": "short_circuit"}')
     # ---- output mode and initial state of OUT -----------------------------------------
     out_mode = rng.choice(["-o", "-o", "--output", "stdout", "stdout", "-oATTACHED", "--output="])
     out_state = "n/a"
@@ -436,6 +451,7 @@ def gen_base(seed: int) -> dict:
         "stdout_line_buffered": rng.random() < 0.3,
         "locale": rng.choice(["utf-8", "latin-1", "ascii"]),
         "stdout_encoding": rng.choice(["utf-8", "utf-8", "utf-8", "ascii", "latin-1", "cp1252"]),
+        "stdout_isatty": rng.random() < 0.25,
     }
     return materialise({
         "prop": "C16", "seed": seed, "parts": parts, "out_mode": "stdout" if out_mode == "stdout" else "file",
